@@ -68,12 +68,12 @@ def shards(tier, seed):
 
 
 # ------------------------------------------------------------------ pipeline
-def pipeline(coords, species, M, site_frac, labels, want_volume=True, li_cols=(0, 1)):
+def pipeline(coords, species, M, site_frac, labels, want_volume=True, li_cols=(0, 1), radius=None):
     """Run the real analysis pipeline; returns a dict of observables in the representation's own labelling."""
     out = {}
     traj = concretise.make_trajectory(coords, species, M, time_step=2e-15, temperature=500.0)
     sites = concretise.make_sites(site_frac, labels, M)
-    tr = traj.transitions_between_sites(sites, 'Li', site_radius=R_SITE)
+    tr = traj.transitions_between_sites(sites, 'Li', site_radius=R_SITE if radius is None else dict(radius))
     out['states'] = np.asarray(tr.states)
     out['inner'] = np.asarray(tr.inner_states)
     out['events'] = set(impl.event_rows(tr.events))
@@ -303,7 +303,8 @@ def evaluate(k, trace, tier, seed, res: Result, only=None):
             res.stats['skipped_distance_on_bin_edge'] += 1
             return
     try:
-        base = pipeline(coords, SYMS, M, site_frac, LABELS)
+        rad = None if k % 2 == 0 else {'A': R_SITE, 'B': R_SITE}  # float radius / per-label radii (labels interleaved: A,B,A)
+        base = pipeline(coords, SYMS, M, site_frac, LABELS, radius=rad)
     except Exception as e:  # noqa: BLE001
         res.violation(f'base-pipeline-raises-{type(e).__name__}', case0, f'lattice {lname}: {e}')
         return
@@ -325,7 +326,7 @@ def evaluate(k, trace, tier, seed, res: Result, only=None):
         old_index = spec.get('atoms', [0, 1, 2, 3])
         li_new = [old_index[i] for i, x in enumerate(sp2) if x == 'Li']
         try:
-            got = pipeline(c2, sp2, M2, sf2, lab2, li_cols=(li_new.index(0), li_new.index(1)))
+            got = pipeline(c2, sp2, M2, sf2, lab2, li_cols=(li_new.index(0), li_new.index(1)), radius=rad)
         except Exception as e:  # noqa: BLE001
             res.violation(f'transformed-pipeline-raises-{type(e).__name__}', case, f'{name} lattice {lname}: {e}')
             continue
